@@ -74,6 +74,13 @@ def run_entries(ctx, rule, entries, usize_bits=64, tag="", skip_kinds=(), skip_f
                 continue
             n_in += 1
             ok = panic.discharge(eng, o, usize_bits)
+            if not ok and o.debug_only:
+                # a debug_assert the engine cannot prove: the site does not exist in release builds (the shipped receiver);
+                # recorded in the evidence, not claimed as an obligation and not reported (DESIGN section 3, PANIC)
+                ctx.extra.setdefault("debug_only_assertions_not_proven", [])
+                if len(ctx.extra["debug_only_assertions_not_proven"]) < 40:
+                    ctx.extra["debug_only_assertions_not_proven"].append("%s%s at %s" % (o.key, tag, o.at))
+                continue
             if not ok and (ctx.pid, "%s/%s%s" % (rule, o.key, tag)) in known:
                 # a site listed in KNOWN_FINDINGS.txt is a recorded violation, not an obligation claimed to hold
                 ctx.extra.setdefault("known_violated_sites", []).append(o.key + tag)
